@@ -65,6 +65,9 @@ CORPUS = [
     # groups keep pointing at it, and the corrected definition is taken afterwards
     ('gfa2', 1, ['S\ta\t10\t*', 'S\tb\t10\t*', 'U\tu\te1 a', 'O\to\ta+ e1+ b+', 'E\te1\ta+\tb+\t5\t3\t0\t3\t*',
                  'E\te1\ta+\tb+\t8$\t10$\t0\t3\t*', 'E\te1\ta+\tb+\t7\t10$\t0\t3\t*', 'U\tw\tg1', 'G\tg1\ta+\tb+\t-1\t*', 'G\tg1\ta+\tb+\t5\t*']),
+    # an edge that is refused for its intervals while its segments are not defined yet: no placeholder is left
+    ('gfa2', 1, ['E\te1\tx+\ty+\t5\t3\t0\t3\t*', 'E\te2\tx+\ty+\t8$\t10$\t0\t3\t*', 'S\ty\t10\t*', 'E\te3\tx+\ty+\t0\t3\t5\t3\t*',
+                 'G\tg\tx+\tq\t5\t*', 'F\tx\tr\t0\t3\t0\t3\t*', 'E\te4\tx+\ty+\t0\t3\t7\t10$\t*']),
     ('gfa2', 3, ['S\ta\t10\t*', 'U\tu\ts2 a', 'S\ts2\t-5\t*', 'S\ts2\t5\tAC GT', 'S\ts2\t5\t*', 'O\to\ta+ e9+', 'E\te9\ta+\tzz\t0\t1\t0\t1\t*']),
     ('gfa1', 1, ['P\tp\ta+,b+\t*', 'S\ta\t*\tLN:i:3', 'S\tb\tACGT\tLN:i:9', 'S\tb\tACGT', 'L\ta\t+\tb\t+\t1Q', 'L\ta\t+\tb\t+\t1M']),
 ]
